@@ -1,4 +1,474 @@
-(* Model/EnginesV5.v -- engine dispatch for the MQTT v5 codec models (stub, replaced when the model lands) *)
-From MV Require Import Base.Prelude.
-Definition run_v5 (e : N) (c : list (list N)) : list (list N) := [[98]].
+(* Model/EnginesV5.v -- engines of the correspondence check for the MQTT v5 codec:
+     20 "dec5"  stream decoder, 21 "enc5" encoder, 22 "sniff" protocol-version sniffing.
+   Numeric dump grammar of packets (output of dec5, input of enc5), all flat and self-delimiting:
+     bool      := 0 | 1                 num := one number
+     bytes|str := len, b_1 .. b_len     opt(X) := 0 | 1, X        list(X) := count, X ...
+     uprops    := list(str key, str value)
+     publish   := dup, retain, qos, opt(packet_id), str topic, payload_size, pubprops
+     pubprops  := opt(topic_alias), opt(bytes correlation_data), opt(message_expiry_interval),
+                  opt(str content_type), uprops, is_utf8_payload, opt(str response_topic), list(subscription_id)
+     packet    := tag, fields in the order of the Rust struct declaration
+       1 Connect     clean_start, keep_alive, session_expiry_interval_secs, opt(str auth_method),
+                     opt(bytes auth_data), request_problem_info, request_response_info, opt(receive_max),
+                     topic_alias_max, uprops, opt(max_packet_size), opt(will), str client_id,
+                     opt(str username), opt(bytes password)
+           will    := qos, retain, str topic, bytes message, opt(will_delay_interval_sec),
+                     opt(bytes correlation_data), opt(message_expiry_interval), opt(str content_type),
+                     uprops, opt(bool is_utf8_payload), opt(str response_topic)
+       2 ConnectAck  session_present, reason_code, opt(session_expiry_interval_secs), receive_max, max_qos,
+                     opt(max_packet_size), opt(str assigned_client_id), topic_alias_max, retain_available,
+                     wildcard_subscription_available, subscription_identifiers_available,
+                     shared_subscription_available, opt(server_keepalive_sec), opt(str response_info),
+                     opt(str server_reference), opt(str auth_method), opt(bytes auth_data),
+                     opt(str reason_string), uprops
+       4 PublishAck | 5 PublishReceived | 6 PublishRelease | 7 PublishComplete
+                     packet_id, reason_code, uprops, opt(str reason_string)
+       8 Subscribe   packet_id, opt(id), uprops, list(str filter, qos, no_local, retain_as_published,
+                     retain_handling)
+       9 SubscribeAck | 11 UnsubscribeAck   packet_id, uprops, opt(str reason_string), list(status)
+       10 Unsubscribe packet_id, uprops, list(str filter)
+       12 PingRequest | 13 PingResponse     (nothing)
+       14 Disconnect reason_code, opt(session_expiry_interval_secs), opt(str server_reference),
+                     opt(str reason_string), uprops
+       15 Auth       reason_code, opt(str auth_method), opt(bytes auth_data), opt(str reason_string), uprops *)
+From MV Require Import Base.Prelude Base.Res Base.VarInt Base.Utf8 Model.CodecV5 Model.Sniff.
+
+(* ------------------------------------------------------------------ dump *)
+Definition d_bool (b : bool) : list N := [b2n b].
+Definition d_bytes (b : bytes) : list N := len b :: b.
+Definition d_opt {A} (f : A -> list N) (o : option A) : list N :=
+  match o with Some x => 1 :: f x | None => [0] end.
+Definition d_num (n : N) : list N := [n].
+Definition d_list {A} (f : A -> list N) (l : list A) : list N := N.of_nat (length l) :: flat_map f l.
+Definition d_uprops (l : uprops) : list N := d_list (fun p => d_bytes (fst p) ++ d_bytes (snd p)) l.
+
+Definition d_publish_properties (p : publish_properties) : list N :=
+  d_opt d_num (pp_topic_alias p) ++ d_opt d_bytes (pp_correlation_data p)
+  ++ d_opt d_num (pp_message_expiry_interval p) ++ d_opt d_bytes (pp_content_type p)
+  ++ d_uprops (pp_user_properties p) ++ d_bool (pp_is_utf8_payload p)
+  ++ d_opt d_bytes (pp_response_topic p) ++ d_list d_num (pp_subscription_ids p).
+
+Definition d_publish (p : publish) : list N :=
+  d_bool (p_dup p) ++ d_bool (p_retain p) ++ [p_qos p] ++ d_opt d_num (p_packet_id p)
+  ++ d_bytes (p_topic p) ++ [p_payload_size p] ++ d_publish_properties (p_properties p).
+
+Definition d_will (w : last_will) : list N :=
+  [lw_qos w] ++ d_bool (lw_retain w) ++ d_bytes (lw_topic w) ++ d_bytes (lw_message w)
+  ++ d_opt d_num (lw_will_delay_interval_sec w) ++ d_opt d_bytes (lw_correlation_data w)
+  ++ d_opt d_num (lw_message_expiry_interval w) ++ d_opt d_bytes (lw_content_type w)
+  ++ d_uprops (lw_user_properties w) ++ d_opt d_bool (lw_is_utf8_payload w)
+  ++ d_opt d_bytes (lw_response_topic w).
+
+Definition d_connect (c : connect) : list N :=
+  d_bool (c_clean_start c) ++ [c_keep_alive c] ++ [c_session_expiry_interval_secs c]
+  ++ d_opt d_bytes (c_auth_method c) ++ d_opt d_bytes (c_auth_data c)
+  ++ d_bool (c_request_problem_info c) ++ d_bool (c_request_response_info c)
+  ++ d_opt d_num (c_receive_max c) ++ [c_topic_alias_max c] ++ d_uprops (c_user_properties c)
+  ++ d_opt d_num (c_max_packet_size c) ++ d_opt d_will (c_last_will c) ++ d_bytes (c_client_id c)
+  ++ d_opt d_bytes (c_username c) ++ d_opt d_bytes (c_password c).
+
+Definition d_connect_ack (a : connect_ack) : list N :=
+  d_bool (ca_session_present a) ++ [ca_reason_code a] ++ d_opt d_num (ca_session_expiry_interval_secs a)
+  ++ [ca_receive_max a] ++ [ca_max_qos a] ++ d_opt d_num (ca_max_packet_size a)
+  ++ d_opt d_bytes (ca_assigned_client_id a) ++ [ca_topic_alias_max a]
+  ++ d_bool (ca_retain_available a) ++ d_bool (ca_wildcard_subscription_available a)
+  ++ d_bool (ca_subscription_identifiers_available a) ++ d_bool (ca_shared_subscription_available a)
+  ++ d_opt d_num (ca_server_keepalive_sec a) ++ d_opt d_bytes (ca_response_info a)
+  ++ d_opt d_bytes (ca_server_reference a) ++ d_opt d_bytes (ca_auth_method a)
+  ++ d_opt d_bytes (ca_auth_data a) ++ d_opt d_bytes (ca_reason_string a)
+  ++ d_uprops (ca_user_properties a).
+
+Definition d_ack (id rc : N) (ups : uprops) (rs : option bytes) : list N :=
+  [id; rc] ++ d_uprops ups ++ d_opt d_bytes rs.
+
+Definition d_sub_filter (f : bytes * subscription_options) : list N :=
+  d_bytes (fst f) ++ [so_qos (snd f)] ++ d_bool (so_no_local (snd f))
+  ++ d_bool (so_retain_as_published (snd f)) ++ [so_retain_handling (snd f)].
+
+Definition d_packet (p : packet) : list N :=
+  match p with
+  | Connect c => 1 :: d_connect c
+  | ConnectAck a => 2 :: d_connect_ack a
+  | PublishAck a => 4 :: d_ack (pa_packet_id a) (pa_reason_code a) (pa_properties a) (pa_reason_string a)
+  | PublishReceived a => 5 :: d_ack (pa_packet_id a) (pa_reason_code a) (pa_properties a) (pa_reason_string a)
+  | PublishRelease a =>
+    6 :: d_ack (pa2_packet_id a) (pa2_reason_code a) (pa2_properties a) (pa2_reason_string a)
+  | PublishComplete a =>
+    7 :: d_ack (pa2_packet_id a) (pa2_reason_code a) (pa2_properties a) (pa2_reason_string a)
+  | Subscribe s =>
+    8 :: [s_packet_id s] ++ d_opt d_num (s_id s) ++ d_uprops (s_user_properties s)
+      ++ d_list d_sub_filter (s_topic_filters s)
+  | SubscribeAck a =>
+    9 :: [sa_packet_id a] ++ d_uprops (sa_properties a) ++ d_opt d_bytes (sa_reason_string a)
+      ++ d_list d_num (sa_status a)
+  | Unsubscribe u =>
+    10 :: [u_packet_id u] ++ d_uprops (u_user_properties u) ++ d_list d_bytes (u_topic_filters u)
+  | UnsubscribeAck a =>
+    11 :: [ua_packet_id a] ++ d_uprops (ua_properties a) ++ d_opt d_bytes (ua_reason_string a)
+      ++ d_list d_num (ua_status a)
+  | PingRequest => [12]
+  | PingResponse => [13]
+  | Disconnect d =>
+    14 :: [d_reason_code d] ++ d_opt d_num (d_session_expiry_interval_secs d)
+      ++ d_opt d_bytes (d_server_reference d) ++ d_opt d_bytes (d_reason_string d)
+      ++ d_uprops (d_user_properties d)
+  | Auth a =>
+    15 :: [a_reason_code a] ++ d_opt d_bytes (a_auth_method a) ++ d_opt d_bytes (a_auth_data a)
+      ++ d_opt d_bytes (a_reason_string a) ++ d_uprops (a_user_properties a)
+  end.
+
+(* ------------------------------------------------------------------ parse (the same grammar read back;
+   a value the Rust type cannot hold -- out of range, zero in a NonZero, unknown discriminant,
+   invalid UTF-8 in a ByteString -- makes the dump undecodable) *)
+Definition P (A : Type) := list N -> option (A * list N).
+Notation "'let?' x ':=' r 'in' k" := (match r with Some x => k | None => None end)
+  (at level 200, x pattern, r at level 100, k at level 200).
+
+Definition p_num_if (ok : N -> bool) : P N :=
+  fun l => match l with x :: r => if ok x then Some (x, r) else None | [] => None end.
+Definition p_bool : P bool :=
+  fun l => match l with x :: r => if x <=? 1 then Some (x =? 1, r) else None | [] => None end.
+Definition p_u8 : P N := p_num_if (fun x => x <=? 255).
+Definition p_u16 : P N := p_num_if (fun x => x <=? 65535).
+Definition p_nz16 : P N := p_num_if (fun x => (1 <=? x) && (x <=? 65535)).
+Definition p_u32 : P N := p_num_if (fun x => x <=? U32MAX).
+Definition p_nz32 : P N := p_num_if (fun x => (1 <=? x) && (x <=? U32MAX)).
+Definition p_bytes : P bytes :=
+  fun l => match l with
+           | n :: r => if len r <? n then None
+                       else let '(a, b) := split_to n r in if bytes_ok a then Some (a, b) else None
+           | [] => None
+           end.
+Definition p_str : P bytes :=
+  fun l => let? (b, r) := p_bytes l in if utf8_valid b then Some (b, r) else None.
+Definition p_opt {A} (p : P A) : P (option A) :=
+  fun l => match l with
+           | 0 :: r => Some (None, r)
+           | 1 :: r => let? (x, r') := p r in Some (Some x, r')
+           | _ => None
+           end.
+Fixpoint p_items {A} (p : P A) (fuel : nat) (n : N) (l : list N) : option (list A * list N) :=
+  if n =? 0 then Some ([], l)
+  else match fuel with
+       | O => None
+       | S f => let? (x, r) := p l in let? (xs, r') := p_items p f (n - 1) r in Some (x :: xs, r')
+       end.
+Definition p_list {A} (p : P A) : P (list A) :=
+  fun l => match l with n :: r => p_items p (length r) n r | [] => None end.
+Definition p_uprop : P uprop :=
+  fun l => let? (k, r) := p_str l in let? (v, r') := p_str r in Some ((k, v), r').
+Definition p_uprops : P uprops := p_list p_uprop.
+
+Definition p_publish_properties : P publish_properties :=
+  fun l =>
+  let? (ta, l) := p_opt p_nz16 l in
+  let? (cd, l) := p_opt p_bytes l in
+  let? (me, l) := p_opt p_nz32 l in
+  let? (ct, l) := p_opt p_str l in
+  let? (up, l) := p_uprops l in
+  let? (u8, l) := p_bool l in
+  let? (rt, l) := p_opt p_str l in
+  let? (si, l) := p_list p_nz32 l in
+  Some (mkPublishProperties ta cd me ct up u8 rt si, l).
+
+Definition p_publish : P publish :=
+  fun l =>
+  let? (dup, l) := p_bool l in
+  let? (retain, l) := p_bool l in
+  let? (qos, l) := p_num_if qos_ok l in
+  let? (pid, l) := p_opt p_nz16 l in
+  let? (topic, l) := p_str l in
+  let? (psz, l) := p_u32 l in
+  let? (props, l) := p_publish_properties l in
+  Some (mkPublish dup retain qos pid topic psz props, l).
+
+Definition p_will : P last_will :=
+  fun l =>
+  let? (qos, l) := p_num_if qos_ok l in
+  let? (retain, l) := p_bool l in
+  let? (topic, l) := p_str l in
+  let? (msg, l) := p_bytes l in
+  let? (wd, l) := p_opt p_u32 l in
+  let? (cd, l) := p_opt p_bytes l in
+  let? (me, l) := p_opt p_nz32 l in
+  let? (ct, l) := p_opt p_str l in
+  let? (up, l) := p_uprops l in
+  let? (u8, l) := p_opt p_bool l in
+  let? (rt, l) := p_opt p_str l in
+  Some (mkLastWill qos retain topic msg wd cd me ct up u8 rt, l).
+
+Definition p_connect : P connect :=
+  fun l =>
+  let? (cs, l) := p_bool l in
+  let? (ka, l) := p_u16 l in
+  let? (se, l) := p_u32 l in
+  let? (am, l) := p_opt p_str l in
+  let? (ad, l) := p_opt p_bytes l in
+  let? (rp, l) := p_bool l in
+  let? (rr, l) := p_bool l in
+  let? (rm, l) := p_opt p_nz16 l in
+  let? (ta, l) := p_u16 l in
+  let? (up, l) := p_uprops l in
+  let? (mp, l) := p_opt p_nz32 l in
+  let? (lw, l) := p_opt p_will l in
+  let? (ci, l) := p_str l in
+  let? (un, l) := p_opt p_str l in
+  let? (pw, l) := p_opt p_bytes l in
+  Some (mkConnect cs ka se am ad rp rr rm ta up mp lw ci un pw, l).
+
+Definition p_connect_ack : P connect_ack :=
+  fun l =>
+  let? (sp, l) := p_bool l in
+  let? (rc, l) := p_num_if connect_ack_reason_ok l in
+  let? (se, l) := p_opt p_u32 l in
+  let? (rm, l) := p_nz16 l in
+  let? (mq, l) := p_num_if qos_ok l in
+  let? (mp, l) := p_opt p_u32 l in
+  let? (ac, l) := p_opt p_str l in
+  let? (ta, l) := p_u16 l in
+  let? (ra, l) := p_bool l in
+  let? (ws, l) := p_bool l in
+  let? (si, l) := p_bool l in
+  let? (ss, l) := p_bool l in
+  let? (sk, l) := p_opt p_u16 l in
+  let? (ri, l) := p_opt p_str l in
+  let? (sr, l) := p_opt p_str l in
+  let? (am, l) := p_opt p_str l in
+  let? (ad, l) := p_opt p_bytes l in
+  let? (rs, l) := p_opt p_str l in
+  let? (up, l) := p_uprops l in
+  Some (mkConnectAck sp rc se rm mq mp ac ta ra ws si ss sk ri sr am ad rs up, l).
+
+Definition p_ack (ok : N -> bool) : P (N * N * uprops * option bytes) :=
+  fun l =>
+  let? (id, l) := p_nz16 l in
+  let? (rc, l) := p_num_if ok l in
+  let? (up, l) := p_uprops l in
+  let? (rs, l) := p_opt p_str l in
+  Some ((id, rc, up, rs), l).
+
+Definition p_sub_filter : P (bytes * subscription_options) :=
+  fun l =>
+  let? (f, l) := p_str l in
+  let? (qos, l) := p_num_if qos_ok l in
+  let? (nl, l) := p_bool l in
+  let? (rap, l) := p_bool l in
+  let? (rh, l) := p_num_if retain_handling_ok l in
+  Some ((f, mkSubscriptionOptions qos nl rap rh), l).
+
+Definition p_packet : P packet :=
+  fun l =>
+  match l with
+  | [] => None
+  | tag :: l =>
+    if tag =? 1 then let? (c, l) := p_connect l in Some (Connect c, l)
+    else if tag =? 2 then let? (c, l) := p_connect_ack l in Some (ConnectAck c, l)
+    else if tag =? 4 then
+      let? ((id, rc, up, rs), l) := p_ack publish_ack_reason_ok l in Some (PublishAck (mkPublishAck id rc up rs), l)
+    else if tag =? 5 then
+      let? ((id, rc, up, rs), l) := p_ack publish_ack_reason_ok l in
+      Some (PublishReceived (mkPublishAck id rc up rs), l)
+    else if tag =? 6 then
+      let? ((id, rc, up, rs), l) := p_ack publish_ack2_reason_ok l in
+      Some (PublishRelease (mkPublishAck2 id rc up rs), l)
+    else if tag =? 7 then
+      let? ((id, rc, up, rs), l) := p_ack publish_ack2_reason_ok l in
+      Some (PublishComplete (mkPublishAck2 id rc up rs), l)
+    else if tag =? 8 then
+      let? (id, l) := p_nz16 l in
+      let? (sid, l) := p_opt p_nz32 l in
+      let? (up, l) := p_uprops l in
+      let? (fs, l) := p_list p_sub_filter l in
+      Some (Subscribe (mkSubscribe id sid up fs), l)
+    else if tag =? 9 then
+      let? (id, l) := p_nz16 l in
+      let? (up, l) := p_uprops l in
+      let? (rs, l) := p_opt p_str l in
+      let? (st, l) := p_list (p_num_if subscribe_ack_reason_ok) l in
+      Some (SubscribeAck (mkSubscribeAck id up rs st), l)
+    else if tag =? 10 then
+      let? (id, l) := p_nz16 l in
+      let? (up, l) := p_uprops l in
+      let? (fs, l) := p_list p_str l in
+      Some (Unsubscribe (mkUnsubscribe id up fs), l)
+    else if tag =? 11 then
+      let? (id, l) := p_nz16 l in
+      let? (up, l) := p_uprops l in
+      let? (rs, l) := p_opt p_str l in
+      let? (st, l) := p_list (p_num_if unsubscribe_ack_reason_ok) l in
+      Some (UnsubscribeAck (mkUnsubscribeAck id up rs st), l)
+    else if tag =? 12 then Some (PingRequest, l)
+    else if tag =? 13 then Some (PingResponse, l)
+    else if tag =? 14 then
+      let? (rc, l) := p_num_if disconnect_reason_ok l in
+      let? (se, l) := p_opt p_u32 l in
+      let? (sr, l) := p_opt p_str l in
+      let? (rs, l) := p_opt p_str l in
+      let? (up, l) := p_uprops l in
+      Some (Disconnect (mkDisconnect rc se sr rs up), l)
+    else if tag =? 15 then
+      let? (rc, l) := p_num_if auth_reason_ok l in
+      let? (am, l) := p_opt p_str l in
+      let? (ad, l) := p_opt p_bytes l in
+      let? (rs, l) := p_opt p_str l in
+      let? (up, l) := p_uprops l in
+      Some (Auth (mkAuth rc am ad rs up), l)
+    else None
+  end.
+
+(* ------------------------------------------------------------------ engine 20 "dec5"
+   case: [max_in; min_chunk] ; [cut positions, increasing] ; [stream bytes]
+   observation: one field per decoded item, then the final field (see below) *)
+Definition d_item (i : decoded) : list N :=
+  match i with
+  | DPacket p rl => 1 :: rl :: d_packet p
+  | DPublish p payload rl => 2 :: rl :: d_publish p ++ d_bytes payload
+  | DPayloadChunk c eof => 3 :: b2n eof :: c
+  end.
+
+Definition state_tag (st : dstate) : N :=
+  match st with
+  | FrameHeader => 0
+  | Frame _ _ => 1
+  | PublishHeader _ _ => 2
+  | PublishProperties _ _ _ => 3
+  | PublishPayload _ => 4
+  end.
+
+Inductive drun :=
+| DRun (items_rev : list (list N)) (st : dstate) (npi : bool) (buf : bytes)
+| DErr (items_rev : list (list N)) (code : N)
+| DPanic.
+
+(* `while let Some(item) = codec.decode(&mut buf)?` ; every item consumes at least one byte *)
+Fixpoint drain (fuel : nat) (max_in min_chunk : N) (acc : list (list N)) (st : dstate) (npi : bool)
+         (buf : bytes) : drun :=
+  match decode_step max_in min_chunk npi st buf with
+  | (Ok None, st', npi', buf') => DRun acc st' npi' buf'
+  | (Ok (Some i), st', npi', buf') =>
+    match fuel with
+    | O => DPanic
+    | S f => drain f max_in min_chunk (d_item i :: acc) st' npi' buf'
+    end
+  | (Err e, _, _, _) => DErr acc e
+  | (Panic _, _, _, _) => DPanic
+  end.
+
+Fixpoint feed (max_in min_chunk : N) (pieces : list bytes) (acc : list (list N)) (st : dstate)
+         (npi : bool) (buf : bytes) : drun :=
+  match pieces with
+  | [] => DRun acc st npi buf
+  | p :: rest =>
+    let buf1 := buf ++ p in
+    match drain (S (length buf1)) max_in min_chunk acc st npi buf1 with
+    | DRun acc' st' npi' buf' => feed max_in min_chunk rest acc' st' npi' buf'
+    | r => r
+    end
+  end.
+
+(* pieces of the stream: cut c means "deliver everything before offset c, then call decode" *)
+Fixpoint pieces (cur : N) (cuts : list N) (s : bytes) : list bytes :=
+  match cuts with
+  | [] => [s]
+  | c :: r =>
+    let k := N.min (c - cur) (len s) in
+    let '(a, b) := split_to k s in
+    a :: pieces (N.max cur c) r b
+  end.
+
+Definition run_dec5 (c : list (list N)) : list (list N) :=
+  match c with
+  | [[max_in; min_chunk]; cuts; stream] =>
+    match feed max_in min_chunk (pieces 0 cuts stream) [] FrameHeader false [] with
+    | DRun acc st npi buf => rev acc ++ [[5; len buf; state_tag st; b2n npi]]
+    | DErr acc e => rev acc ++ [[4; e]]
+    | DPanic => [[9999]]
+    end
+  | _ => [[99]]
+  end.
+
+(* ------------------------------------------------------------------ engine 21 "enc5"
+   case: [peer_max_packet_size (0 = never set); no_problem_info] ; one field per op
+     op  1, <packet dump>                      Encoded::Packet
+         2, has_buf, <publish dump>, payload   Encoded::Publish(pkt, if has_buf then Some(payload) else None)
+         3, chunk bytes                        Encoded::PayloadChunk
+   observation per op: 0, content size, bytes appended | 1, EE code, bytes left appended | 9999 (stop) *)
+Definition p_op (f : list N) : option encoded :=
+  match f with
+  | 1 :: r => match p_packet r with Some (p, []) => Some (EPacket p) | _ => None end
+  | 2 :: hb :: r =>
+    if 1 <? hb then None
+    else match p_publish r with
+         | Some (p, rest) =>
+           if bytes_ok rest then
+             if hb =? 1 then Some (EPublish p (Some rest))
+             else match rest with [] => Some (EPublish p None) | _ => None end
+           else None
+         | None => None
+         end
+  | 3 :: r => if bytes_ok r then Some (EPayloadChunk r) else None
+  | _ => None
+  end.
+
+Fixpoint p_ops (l : list (list N)) : option (list encoded) :=
+  match l with
+  | [] => Some []
+  | f :: r => let? op := p_op f in let? ops := p_ops r in Some (op :: ops)
+  end.
+
+(* the content size the library computes for the item (what it writes as remaining length) *)
+Definition reported_size (c : ecodec) (item0 : encoded) : N :=
+  let item := if ec_no_problem_info c then strip_problem_info item0 else item0 in
+  match item with
+  | EPacket p => packet_encoded_size p (max_size_of c)
+  | EPublish p _ => publish_encoded_size p (max_size_of c) mod TWO32
+  | EPayloadChunk _ => 0
+  end.
+
+Fixpoint run_ops (c : ecodec) (ops : list encoded) : list (list N) :=
+  match ops with
+  | [] => []
+  | op :: r =>
+    match encodev c op with
+    | ((w, Ok _), c') => (0 :: reported_size c op :: w) :: run_ops c' r
+    | ((w, Err e), c') => (1 :: e :: w) :: run_ops c' r
+    | ((_, Panic _), _) => [[9999]]
+    end
+  end.
+
+Definition run_enc5 (c : list (list N)) : list (list N) :=
+  match c with
+  | [peer_max; npi] :: ops =>
+    if 1 <? npi then [[99]]
+    else match p_ops ops with
+         | None => [[97]]
+         | Some items =>
+           let c0 := if peer_max =? 0 then ecodec_new else set_max_outbound_size ecodec_new peer_max in
+           let c1 := mkECodec (ec_max_out_size c0) (ec_max_out_frame c0) (npi =? 1) None in
+           run_ops c1 items
+         end
+  | _ => [[99]]
+  end.
+
+(* ------------------------------------------------------------------ engine 22 "sniff" *)
+Definition run_sniff (c : list (list N)) : list (list N) :=
+  match c with
+  | [src] =>
+    match sniff src with
+    | Ok (Some v) => [[0; v]]
+    | Ok None => [[1]]
+    | Err e => [[2; e]]
+    | Panic _ => [[9999]]
+    end
+  | _ => [[99]]
+  end.
+
+Definition run_v5 (e : N) (c : list (list N)) : list (list N) :=
+  match e with
+  | 20 => run_dec5 c
+  | 21 => run_enc5 c
+  | 22 => run_sniff c
+  | _ => [[98]]
+  end.
+
 Definition oracle_v5 (e : N) (c o : list (list N)) : list (list N) := [[98]].
